@@ -598,6 +598,12 @@ def _oracle(f, args):
         full = _re.findall(rb'%([-0 +#]*)\d*(?:\.\d+)?(.)', fmt)
         if any(d in b'xXoc' and (b' ' in fl or b'+' in fl) for fl, d in full):
             raise NoOpinion()        # C ignores sign flags for unsigned conversions, python does not
+        if any((d == b'o' and b'#' in fl) or (d in b'sc' and (set(fl) - set(b'-'))) or len(fl) > 5 for fl, d in full):
+            raise NoOpinion()        # python writes 0o10; flags other than '-' on %s/%c are undefined in C
+        if any(b'#' in fl for fl, d in full) or _re.search(rb'%[-+ #0]*\d*\.\d*[dixXo]', fmt):
+            raise NoOpinion()        # python: '%#x' % 0 = '0x0'; with a precision it keeps the 0 flag and prints '0' for '%.0d' % 0 (C: no digits)
+        if _re.search(rb'%[-0 +#]*\d{3}', fmt) or _re.search(rb'%[-0 +#]*\d*\.\d{3}', fmt):
+            raise NoOpinion()
         dirs = [d for fl, d in full]
         if any(d not in b'dixXosfeEgGc%' for d in dirs):
             raise NoOpinion()
@@ -607,7 +613,7 @@ def _oracle(f, args):
                 raise Err(None)      # partial output may already be in the buffer
             raise Err()
         if len(need) < len(vals):
-            raise NoOpinion()
+            vals = vals[:len(need)]   # surplus arguments are ignored
         for d, v in zip(need, vals):
             if d in b'dixXoc' and not (isinstance(v, int) and INT32_MIN <= v <= INT32_MAX):
                 if isinstance(v, bytes):
@@ -621,8 +627,8 @@ def _oracle(f, args):
                 raise NoOpinion()
             if d in b'xXo' and v < 0:
                 raise NoOpinion()
-            if isinstance(v, bytes) and b'\0' in v:
-                raise NoOpinion()     # %s goes through a C string
+            if isinstance(v, bytes) and (b'\0' in v or len(v) >= 100):
+                raise NoOpinion()     # %s goes through a C string / length limit without precision
         try:
             out = fmt % tuple(vals)
         except (TypeError, ValueError, OverflowError):
